@@ -46,7 +46,7 @@ func init() { Register(c13{}) }
 func (c13) ID() string { return "C13" }
 func (c13) NRuns(tier string) int {
 	if tier == "thorough" {
-		return 200000
+		return 1000000
 	}
 	return 3000
 }
